@@ -590,3 +590,95 @@ contract(
         f"self.prime_prior_bounds['{p}_prime'][{j}] == {_img(p, j)})"
         for p in "ab" for j in (0, 1)],
 )
+
+
+# ---- CombinedReparameterisation: composition of reparameterisations ---------
+# Two abstract member reparameterisations on disjoint parameters (r1: a ->
+# a_prime with map F1 / inverse K1 and log-Jacobians J1 / L1; r2: b ->
+# b_prime, F2 / K2 / J2 / L2); each leaves the other's fields alone.  The
+# combination applies every member exactly once, in either order
+# (reverse_order symbolic), accumulates both log-Jacobians onto what it was
+# handed, and the inverse runs the members in the opposite order.
+RC = "nessai/reparameterisations/combined.py"
+_KEEP1 = ("forall(i, 0, len(x), x_prime['{o}_prime'][i] == "
+          "old(x_prime['{o}_prime'])[i] and x_prime['logL'][i] == "
+          "old(x_prime['logL'])[i] and x_prime['logP'][i] == "
+          "old(x_prime['logP'])[i])")
+_KEEP2 = ("forall(i, 0, len(x), x['{o}'][i] == old(x['{o}'])[i] and "
+          "x['logL'][i] == old(x['logL'])[i] and "
+          "x['logP'][i] == old(x['logP'])[i])")
+
+
+def _member(name, p, o, k):
+    F, J, K, L = f"F{k}", f"J{k}", f"K{k}", f"L{k}"
+    shape(name, {}, methods={
+        "reparameterise": Contract(
+            "<abstract>", f"{name}.reparameterise",
+            params={"x": XS, "x_prime": XP, "log_j": "Seq(Real)",
+                    "**kwargs": {}},
+            trusted=True, trusted_reason="an abstract member "
+            "reparameterisation on one parameter (the built-in classes: "
+            "the contracts above)",
+            requires=["len(x) == len(x_prime) and len(log_j) == len(x)"],
+            modifies=["x_prime", "log_j"],
+            returns="ParamTuple(x,x_prime,log_j)",
+            ensures=["len(x_prime) == old(len(x_prime)) and "
+                     "len(log_j) == old(len(log_j))",
+                     f"forall(i, 0, len(x), x_prime['{p}_prime'][i] == "
+                     f"uf('{F}', x['{p}'][i]) and log_j[i] == "
+                     f"old(log_j)[i] + uf('{J}', x['{p}'][i]))",
+                     _KEEP1.format(o=o)]),
+        "inverse_reparameterise": Contract(
+            "<abstract>", f"{name}.inverse_reparameterise",
+            params={"x": XS, "x_prime": XP, "log_j": "Seq(Real)",
+                    "**kwargs": {}},
+            trusted=True, trusted_reason="see reparameterise",
+            requires=["len(x) == len(x_prime) and len(log_j) == len(x)"],
+            modifies=["x", "log_j"],
+            returns="ParamTuple(x,x_prime,log_j)",
+            ensures=["len(x) == old(len(x)) and "
+                     "len(log_j) == old(len(log_j))",
+                     f"forall(i, 0, len(x), x['{p}'][i] == "
+                     f"uf('{K}', x_prime['{p}_prime'][i]) and log_j[i] == "
+                     f"old(log_j)[i] + uf('{L}', x_prime['{p}_prime'][i]))",
+                     _KEEP2.format(o=o)]),
+    })
+
+
+from pyvc.contracts import Contract as Contract   # noqa: E402,F811
+_member("MemberA", "a", "b", 1)
+_member("MemberB", "b", "a", 2)
+shape("CombinedRP", {
+    "order": "PyConst(['r1', 'r2'])", "reverse_order": "Bool",
+    "item_r1": "Obj(MemberA)", "item_r2": "Obj(MemberB)",
+}, cls="CombinedReparameterisation")
+contract(
+    RC, "CombinedReparameterisation.reparameterise", props=["C07"],
+    self_shape="CombinedRP",
+    params={"x": XS, "x_prime": XP, "log_j": "Seq(Real)", "**kwargs": {}},
+    requires=["len(x) == len(x_prime) and len(log_j) == len(x)"],
+    modifies=["x_prime", "log_j"], returns="Any",
+    ensures=["len(x_prime) == old(len(x_prime)) and "
+             "len(log_j) == old(len(log_j))",
+             "forall(i, 0, len(x), x_prime['a_prime'][i] == "
+             "uf('F1', x['a'][i]) and x_prime['b_prime'][i] == "
+             "uf('F2', x['b'][i]))",
+             "forall(i, 0, len(x), log_j[i] == old(log_j)[i] + "
+             "uf('J1', x['a'][i]) + uf('J2', x['b'][i]))",
+             KEEP_XP],
+)
+contract(
+    RC, "CombinedReparameterisation.inverse_reparameterise", props=["C07"],
+    self_shape="CombinedRP",
+    params={"x": XS, "x_prime": XP, "log_j": "Seq(Real)", "**kwargs": {}},
+    requires=["len(x) == len(x_prime) and len(log_j) == len(x)"],
+    modifies=["x", "log_j"], returns="Any",
+    ensures=["len(x) == old(len(x)) and len(log_j) == old(len(log_j))",
+             "forall(i, 0, len(x), x['a'][i] == "
+             "uf('K1', x_prime['a_prime'][i]) and x['b'][i] == "
+             "uf('K2', x_prime['b_prime'][i]))",
+             "forall(i, 0, len(x), log_j[i] == old(log_j)[i] + "
+             "uf('L1', x_prime['a_prime'][i]) + "
+             "uf('L2', x_prime['b_prime'][i]))",
+             KEEP_X],
+)
